@@ -212,6 +212,10 @@ static void stress_round(sup::Ctx& ctx, uint64_t seed, long round, int k, const 
   }
   names.push_back({"UTC", -2, true, 0});
   names.push_back({"UTC0", -2, true, 0});
+  // the "file:" spelling of a registered name is a different name: it goes to the data source as it is (where nothing is
+  // registered under it, and no such file exists), so it fails, and the source sees each spelling once
+  names.push_back({"file:" + pre + "z0", -1, false, 0});
+  names.push_back({"file:" + pre + "bad0", -1, false, 0});
   // fixed-offset names nobody has loaded yet: all threads must end up holding the same zone for each
   for (int j = 0; j < 4; ++j) names.push_back({fresh_fixed_name(), -2, true, 0});
   // zones shared by all threads (their hints are hammered)
